@@ -93,11 +93,13 @@ Section Wrappers.
           let '(sig, _) := get_string msg p1 in
           (* _sigdecode: Message(sig).get_mpint() twice *)
           let '(rb, q1) := get_string sig 0 in
-          let '(sb, _) := get_string sig q1 in
+          let '(sb, q2) := get_string sig q1 in
           let r := inflate_long rb false in
           let s := inflate_long sb false in
+          (* _sigdecode: bytes after the two mpints -> (None, None) -> return False, library not consulted *)
+          if negb (match get_remainder sig q2 with [] => true | _ => false end) then Answer false
           (* encode_dss_signature raises ValueError on negative integers: return False *)
-          if (r <? 0) || (s <? 0) then Answer false
+          else if (r <? 0) || (s <? 0) then Answer false
           else Call (AEcdsa verifying r s)
     end.
 
